@@ -11,7 +11,7 @@
     magicBlock, compressBound are regenerated from the Go source. *)
 From Coq Require Import ZArith List Bool.
 From Hts Require Import Base.Prim Base.WrList Generated Model.Bgzf Model.Writer Model.WriterConc
-  Proofs.Bgzf Proofs.Writer Proofs.WriterConc Proofs.WriterThms.
+  Proofs.Bgzf Proofs.Writer Proofs.WriterConc Proofs.WriterThms Proofs.WrSkel.
 Import ListNotations.
 Open Scope Z_scope.
 
